@@ -69,7 +69,7 @@ let mode_incl = function "incl" -> true | "excl" -> false | _ -> failwith "bad m
 let rec take k l = if k = 0 then [] else match l with [] -> [] | h :: t -> h :: take (k - 1) t
 let rec drop k l = if k = 0 then l else match l with [] -> [] | _ :: t -> drop (k - 1) t
 
-let handle toks = match toks with
+let rec handle toks = match toks with
   | ["sampled"; dt; off; p; r] ->
     let dt = dec_dbl dt and o = off_of off and p = dec_dbl p in
     scalar (sampled_ctx dt o) (sampled_dom dt o p) p (rule_of r)
@@ -259,6 +259,95 @@ let handle toks = match toks with
        let r = (match int_of_z (position_in_range p ticks) with 0 -> "norange" | 1 -> "less" | 2 -> "inrange" | _ -> "greater") in
        "OK " ^ r ^ " ## " ^ (if fis_nan p then "ANY" else "OK " ^ r)
      | _ -> failwith "bad range route")
+  (* ---- caller-supplied-axis cores = the generated pair conversions themselves *)
+  | ["core"; "s"; dt; off; s; e; m] ->
+    let dt = dec_dbl dt and o = off_of off and s = dec_dbl s and e = dec_dbl e in
+    let (_, spec) = pair (sampled_ctx dt o) (sampled_dom dt o s && fis_finite e) s e (mode_incl m) in
+    show_res show_pair (sampled_pair s e dt o (if mode_incl m then RangeMatch_Inclusive else RangeMatch_Exclusive)) ^ " ## " ^ show_spec show_pair spec
+  | ["core"; "set"; n; own; s; e; m] ->
+    let n = oint_of_string n and own = oint_of_string own and s = dec_dbl s and e = dec_dbl e in
+    let mine = OLst.init n (fun _ -> cstr "m") and ownl = OLst.init own (fun _ -> cstr "l") in
+    let eff = if n = 0 then own else n in
+    let (_, spec) = pair (set_ctx eff) (int_dom s && int_dom e) s e (mode_incl m) in
+    let tail = " | labels " ^ string_of_int eff in
+    show_res (fun v -> show_pair v ^ tail) (set_pair s e mine (if mode_incl m then RangeMatch_Inclusive else RangeMatch_Exclusive) ownl)
+    ^ " ## " ^ (match spec with Is v -> "OK " ^ show_pair v ^ tail | sp -> show_spec show_pair sp)
+  | ["core"; "df"; n; _own; s; e; m] ->
+    let n = oint_of_string n and s = dec_dbl s and e = dec_dbl e in
+    let (_, spec) = pair (df_ctx n) (int_dom s && int_dom e) s e (mode_incl m) in
+    show_res show_pair (df_pair s e (z_of_int n) (if mode_incl m then RangeMatch_Inclusive else RangeMatch_Exclusive)) ^ " ## " ^ show_spec show_pair spec
+  | "core" :: "r" :: k :: rest ->
+    let k = oint_of_string k in
+    let ticks = OLst.map dec_dbl (take k rest) in
+    let own = [ofZ (z_of_int 1000); ofZ (z_of_int 2000)] in
+    (match drop k rest with
+     | [s; e; m] ->
+       let s = dec_dbl s and e = dec_dbl e in
+       let eff = if k = 0 then own else ticks in
+       let (_, spec) = pair (range_ctx eff) (fis_finite s && fis_finite e) s e (mode_incl m) in
+       show_res show_pair (range_pair s e ticks (if mode_incl m then RangeMatch_Inclusive else RangeMatch_Exclusive) own) ^ " ## " ^ show_spec show_pair spec
+     | _ -> failwith "bad core r")
+  | ["opidx"; "s"; dt; off; i] -> let r = "OK " ^ enc_dbl (x_sampled (dec_dbl dt) (off_of off) (z_of_string i)) in r ^ " ## " ^ r
+  | "opidx" :: "r" :: k :: rest ->
+    let k = oint_of_string k in
+    let ticks = OLst.map dec_dbl (take k rest) in
+    (match drop k rest with
+     | [i] -> let i = oint_of_string i in
+       let r = if i >= 0 && i < k then "OK " ^ enc_dbl (OLst.nth ticks i) else "ERR" in
+       (if r = "ERR" then "ERR nix::OutOfBounds" else r) ^ " ## " ^ r
+     | _ -> failwith "bad opidx")
+  (* ---- remaining util::positionToIndex overloads *)
+  | ["uset"; k; p; r] -> let p = dec_dbl p in scalar (set_ctx (oint_of_string k)) (int_dom p) p (rule_of r)
+  | ["udf"; k; p; r] -> let p = dec_dbl p in scalar (df_ctx (oint_of_string k)) (int_dom p) p (rule_of r)
+  | ("usetvec" | "udfvec" as cmd) :: rest -> handle ((if cmd = "usetvec" then "setvec" else "dfvec") :: rest)
+  | "udep" :: kind :: rest ->
+    (* deprecated scalar overloads: GreaterOrEqual, none -> OutOfBounds; sampled / range scale by the unit, set ignores it *)
+    let bare sp = (match sp with Is (Some i) -> "OK " ^ string_of_z i | Is None -> "ERR" | Any -> "ANY" | Undetermined -> "UNDETERMINED") in
+    (match kind, rest with
+     | "set", [k; p; _u] ->
+       let p = dec_dbl p in
+       let (x, n, f) = set_ctx (oint_of_string k) in
+       show_res string_of_z (or_oob (f p PositionMatch_GreaterOrEqual)) ^ " ## " ^ (if int_dom p then bare (spec_scalar x n PositionMatch_GreaterOrEqual p (f p)) else "ANY")
+     | ("s" | "r"), _ ->
+       let full = handle ("upos" :: kind :: (rest @ ["GE"])) in
+       (* reuse the upos answer: OK i | OK none | ERR ..  ->  bare index or OutOfBounds *)
+       (match OStr.index_opt full '#' with
+        | None -> full
+        | Some _ ->
+          let cut = (let rec find i = if OStr.sub full i 4 = " ## " then i else find (i + 1) in find 0) in
+          let md = OStr.sub full 0 cut and sp = OStr.sub full (cut + 4) (OStr.length full - cut - 4) in
+          let conv x = if x = "OK none" then "ERR nix::OutOfBounds" else x in
+          conv md ^ " ## " ^ (if sp = "OK none" then "ERR" else sp))
+     | _ -> failwith "bad udep")
+  | "udepvec" :: kind :: rest ->
+    (match kind, rest with
+     | "set", k :: cnt :: triples ->
+       let rec tr l = match l with s :: e :: _u :: t -> s :: e :: tr t | _ -> [] in
+       let full = handle ("svec2set" :: k :: cnt :: tr triples) in full
+     | ("s" | "r"), _ ->
+       (* = uvec with Inclusive mode, then every range must be valid *)
+       let n_dim = (match kind, rest with
+           | "s", _ -> 3                                   (* dt off dimunit *)
+           | _, k :: _ -> 2 + oint_of_string k               (* k ticks.. dimunit *)
+           | _ -> failwith "bad udepvec") in
+       let dimpart = take n_dim rest and tail = drop n_dim rest in
+       let full = handle ("uvec" :: kind :: (dimpart @ ("incl" :: tail))) in
+       let cut = (let rec find i = if OStr.sub full i 4 = " ## " then i else find (i + 1) in find 0) in
+       let md = OStr.sub full 0 cut and sp = OStr.sub full (cut + 4) (OStr.length full - cut - 4) in
+       let has_none x = (let rec go i = i + 6 <= OStr.length x && (OStr.sub x i 6 = "[none]" || go (i + 1)) in go 0) in
+       let unbr x = OStr.concat "" (OStr.split_on_char '~' x) in
+       ignore unbr;
+       let conv x = if OStr.length x >= 2 && OStr.sub x 0 2 = "OK" && has_none x then "ERR nix::OutOfBounds" else x in
+       conv md ^ " ## " ^ (if OStr.length sp >= 2 && OStr.sub sp 0 2 = "OK" && has_none sp then "ERR" else sp)
+     | _ -> failwith "bad udepvec")
+  | "svec2set" :: k :: cnt :: vals ->
+    (* deprecated set vector overload: Inclusive, throws on the first invalid range *)
+    let full = handle ("setvec" :: k :: "incl" :: cnt :: vals) in
+    let cut = (let rec find i = if OStr.sub full i 4 = " ## " then i else find (i + 1) in find 0) in
+    let md = OStr.sub full 0 cut and sp = OStr.sub full (cut + 4) (OStr.length full - cut - 4) in
+    let has_none x = (let rec go i = i + 6 <= OStr.length x && (OStr.sub x i 6 = "[none]" || go (i + 1)) in go 0) in
+    (if OStr.length md >= 2 && OStr.sub md 0 2 = "OK" && has_none md then "ERR nix::OutOfBounds" else md)
+    ^ " ## " ^ (if OStr.length sp >= 2 && OStr.sub sp 0 2 = "OK" && has_none sp then "ERR" else sp)
   | ["saxis"; dt; off; count; start] ->
     let dt = dec_dbl dt and o = off_of off in
     let n = oint_of_string count and st = z_of_string start in
